@@ -371,7 +371,8 @@ def runStFx (fx : Fixes) (cfg : Cfg) : St → List (Op × Ora) → St
   the repair the implementation does exactly that (both entries of a flushed rename change together),
   so syncing a directory makes durable — at the place where it lives now — every entry that is in the
   directory *or left it by a still-unsynced rename*.  The ghost `touched` records which directories the
-  unsynced creates / renames of an entry involve. -/
+  unsynced renames of an entry involve and where each rename put the entry: an entry that has been
+  removed again (in another, unsynced directory) is durable at that place — the removal is not. -/
 
 def locOf (l : Live) (e : Ent) : Option (Nat × Nat) :=
   match l.ents.find? (fun kv => kv.2 == e) with
@@ -392,13 +393,15 @@ def parentId (l : Live) (q : Path) : Option Nat :=
 /-- ghost update after a live step: an entry that lived somewhere before and now appears at a new
     place (a rename) touches its old and its new parent.  (A plain creation needs no ghost: the entry
     is a child of its parent and becomes durable when that parent is synced.) -/
-def touchUpd (l l' : Live) (touched : List (Ent × Nat)) : List (Ent × Nat) :=
+def touchUpd (l l' : Live) (touched : List (Ent × Nat × (Nat × Nat))) : List (Ent × Nat × (Nat × Nat)) :=
   touched ++ (l'.ents.flatMap fun qe =>
     if l.ents.contains qe then [] else
       match l.ents.find? (fun kv => kv.2 == qe.2) with
       | some kv =>
-        (match parentId l' qe.1 with | some d => [(qe.2, d)] | none => [])
-        ++ (match parentId l kv.1 with | some d => [(qe.2, d)] | none => [])
+        -- where the rename put the entry (kept in case the entry is removed again before the sync)
+        let dest : Nat × Nat := ((parentId l' qe.1).getD 0, qe.1.getLastD 0)
+        (match parentId l' qe.1 with | some d => [(qe.2, d, dest)] | none => [])
+        ++ (match parentId l kv.1 with | some d => [(qe.2, d, dest)] | none => [])
       | none => [])
 
 def sSyncDirBoth (l : Live) (sp : Spec) (p : Path) : Spec :=
@@ -407,12 +410,17 @@ def sSyncDirBoth (l : Live) (sp : Spec) (p : Path) : Spec :=
   | some id =>
     let kids : List ((Nat × Nat) × Ent) := (sChildren l p).map fun kv => ((id, kv.1.getLastD 0), kv.2)
     -- entries that left this directory by a still-unsynced rename: durable where they live now
-    let movedEnts : List Ent := ((sp.touched.filter fun t => t.2 == id).map fun t => t.1).filter fun e =>
+    let movedEnts : List Ent := ((sp.touched.filter fun t => t.2.1 == id).map fun t => t.1).filter fun e =>
       !(kids.any fun k => k.2 == e)
     let movedOut : List ((Nat × Nat) × Ent) := movedEnts.eraseDups.filterMap fun e =>
       match locOf l e with
       | some loc => some (loc, e)
-      | none => none
+      | none =>
+        -- the entry has been removed since, in a directory that is not being synced: that removal is
+        -- not durable, the rename out of this directory is (the entry is durable where the rename put it)
+        match (sp.touched.filter fun t => t.1 == e && t.2.1 == id && t.2.2.1 != id).getLast? with
+        | some t => some (t.2.2, e)
+        | none => none
     let others := sp.dents.filter fun kv =>
       kv.1.1 != id && !(kids.any fun k => k.2 == kv.2) && !(movedOut.any fun m => m.1 == kv.1 || m.2 == kv.2)
     let d1 := others ++ movedOut ++ kids
